@@ -127,6 +127,8 @@ def descriptors() -> dict[str, NodeV]:
     d["COMMENT ON TABLE"] = node("Comment", "stmt", kind=Const("table"), this=table("T"),
                                  expression=lit(Sym("comment", typ="str", truthy=True)))
     d["USE DATABASE"] = node("Use", "stmt", kind=var("DATABASE"), this=table("D2"))
+    d["USE DATABASE current"] = node("Use", "stmt", kind=var("DATABASE"), this=table("CUR_DB"))
+    d["USE SCHEMA current"] = node("Use", "stmt", kind=var("SCHEMA"), this=table("CUR_SCHEMA"))
     d["USE SCHEMA"] = node("Use", "stmt", kind=var("SCHEMA"), this=table("S2"))
     d["USE SCHEMA qualified"] = node("Use", "stmt", kind=var("SCHEMA"), this=table("S2", "D2"))
     d["USE (no kind)"] = node("Use", "stmt", this=table("S2", "D2"))
